@@ -62,9 +62,10 @@ inductive Out where
   deriving Repr, DecidableEq
 
 /-- NewIPPool on 10.77.0.0/bits with gateway .1: every host after the network address except the gateway
-    (the subnet broadcast is NOT skipped by the code: `isBroadcast` only knows 255.255.255.255) -/
+    and (for prefixes shorter than /31) the subnet's broadcast address -/
 def poolAddrs (bits : Nat) : List Nat :=
-  (List.range (2 ^ (32 - bits))).filter (fun a => a ≠ 0 ∧ a ≠ 1)
+  (List.range (2 ^ (32 - bits))).filter
+    (fun a => a ≠ 0 ∧ a ≠ 1 ∧ (bits ≥ 31 ∨ a ≠ 2 ^ (32 - bits) - 1))
 
 def init (radius : Bool) (bits : Nat) : Srv :=
   { radius := radius, sessions := [], nextID := 1, avail := poolAddrs bits, alloc := [], serialCtr := 0 }
@@ -144,7 +145,9 @@ def step (s : Srv) : In → Srv × List Out
         let x1 : Sess := { x with authed := true, state := .ipcp, ip := ip, everAuthed := true }
         (setSess s1 sid x1, if ip.isSome then [.papack sid x.mac, .ipcpreq sid x.mac] else [.papack sid x.mac])
       else
-        (setSess s sid { x with authed := false, state := .closed }, [.papnak sid x.mac])
+        -- authentication failure ends the session: address back to the pool, session removed
+        let s1 := poolRelease s x.serial
+        ({ s1 with sessions := AMap.erase s1.sessions sid }, [.papnak sid x.mac])
   | .ipcp m sid k =>
     match ownerGate s m sid with
     | none => (s, [])
